@@ -125,6 +125,9 @@ pub struct RefGpu {
     pub modes: Vec<(u32, u32, u32, u32, u32, u32)>, pub edid: Vec<u8>, pub edid_size: u32,
     pub script: Vec<Ans>, pub recv: Vec<Recv>, pub image_seen: Option<Vec<u8>>,
     pub active: bool, pub spins: u32, pub serve_after: u32, pub serve_on_notify: bool, pub problems: Vec<String>,
+    /// a device that takes RESOURCE_CREATE_2D with an id already in use as a re-creation (the old resource and its attachment
+    /// are gone) instead of refusing it: the specification leaves resource ids to the guest and does not say
+    pub dup_replace: bool,
 }
 
 fn rd_desc(b: &[u8]) -> (u64, u32, u16, u16) {
@@ -136,7 +139,7 @@ impl RefGpu {
     fn new(qa: [QAddr; 2], event_idx: bool) -> Self {
         RefGpu { qa, seen: [0; 2], used: [0; 2], event_idx, res: HashMap::new(), scanout: None, num_scanouts: 16,
             modes: vec![(0, 0, 1280, 800, 1, 0)], edid: vec![0; 1024], edid_size: 0, script: vec![], recv: vec![], image_seen: None,
-            active: false, spins: 0, serve_after: 1, serve_on_notify: true, problems: vec![] }
+            active: false, spins: 0, serve_after: 1, serve_on_notify: true, problems: vec![], dup_replace: false }
     }
     /// 2.7.5: follow the chain (direct, or through an indirect table)
     fn walk(&self, q: usize, head: u16) -> Option<Vec<(u64, u32, bool)>> {
@@ -171,7 +174,7 @@ impl RefGpu {
                 if *scanout >= self.num_scanouts { return (R_ERR_INVALID_PARAMETER, vec![], vec![]); }
                 let mut p = vec![]; p.extend(self.edid_size.to_le_bytes()); p.extend(0u32.to_le_bytes()); p.extend(&self.edid); (R_OK_EDID, p, vec![]) }
             Cmd::Create2D { rid, format, w, h } => {
-                if *rid == 0 || self.res.contains_key(rid) { return (R_ERR_INVALID_RESOURCE_ID, vec![], vec![]); }
+                if *rid == 0 || (self.res.contains_key(rid) && !self.dup_replace) { return (R_ERR_INVALID_RESOURCE_ID, vec![], vec![]); }
                 if ![1u32, 2, 3, 4, 67, 68, 121, 134].contains(format) { return (R_ERR_INVALID_PARAMETER, vec![], vec![]); }
                 self.res.insert(*rid, Res { w: *w, h: *h, backing: None });
                 (R_OK_NODATA, vec![], vec![[1, *rid as u128, *w as u128, *h as u128]]) }
@@ -625,6 +628,8 @@ fn error_script(ctx: &mut Ctx, n: usize) -> Vec<Ans> {
 
 fn history(ctx: &mut Ctx, feats: u64, nops: usize, errors: bool) {
     let mut life = match make(ctx, feats) { Some(l) => l, None => return };
+    // half of the undisturbed lives run against a device that accepts the re-creation of a resource id
+    if !errors && nops % 2 == 0 { with_sim(|s| s.dup_replace = true); ctx.tr.note("device_accepts_recreated_ids"); }
     with_sim(|s| { s.modes[0] = (0, 0, 1 + ctx.rng.below(1920) as u32, 1 + ctx.rng.below(1080) as u32, 1, 0); });
     let mut stuck = false;
     for i in 0..nops {
@@ -667,6 +672,7 @@ fn directed(ctx: &mut Ctx, feats: u64) {
     op_flush(&mut life, ctx, vec![]);
     op_setup_cursor(&mut life, ctx, 16384, 1, 2, 3, 4, vec![], false);
     op_move(&mut life, ctx, u32::MAX, 0, vec![]);
+    with_sim(|s| s.dup_replace = feats & F_IND != 0);
     // a second cursor image: the first one's backing memory may only go once the resource has been given the new one
     op_setup_cursor(&mut life, ctx, 16384, 9, 8, 7, 6, vec![], false);
     op_move(&mut life, ctx, 5, 5, vec![]);
